@@ -3,3 +3,4 @@ import TinsModel.Props.Limits.C08
 #print axioms Tins.Props.Limits.C08.limits_agree_fragOffsetUnit
 #print axioms Tins.Props.Limits.C08.limits_agree_ipFlags
 #print axioms Tins.Props.Limits.C08.limits_agree_defaultTtl
+#print axioms Tins.Props.Limits.C08.limits_agree_reasmMaxDatagram
